@@ -80,7 +80,7 @@ type dBroadcast struct {
 	Msg     *spectypes.SSVMessage
 	Seq     int
 	Partial *spectypes.SignedPartialSignatureMessage // set for partial-signature messages
-	QBFT    *specqbft.SignedMessage                 // set for consensus messages
+	QBFT    *specqbft.SignedMessage                  // set for consensus messages
 }
 
 type dNet struct {
@@ -284,7 +284,9 @@ func wipeDB(db *kv.BadgerDB) {
 	}
 }
 
-func (w *dutyWorld) base(i kit.OpID) *runner.BaseRunner { return w.Ops[i].runners[w.BR].GetBaseRunner() }
+func (w *dutyWorld) base(i kit.OpID) *runner.BaseRunner {
+	return w.Ops[i].runners[w.BR].GetBaseRunner()
+}
 
 // Instance returns operator i's consensus instance of the duty (nil if none).
 func (w *dutyWorld) Instance(i kit.OpID) *instance.Instance {
